@@ -231,8 +231,9 @@ class AlreadyCalled(Exception):
     pass
 
 
-def mk_timer(active):
-    st = {"active": active}
+def mk_timer(active, now=None, fires_at=None):
+    """twisted DelayedCall: cancel/reset/delay/active; `fires_at` follows IDelayedCall (reset = seconds from now, delay = seconds later)"""
+    st = {"active": active, "now": now, "fires_at": fires_at, "calls": []}
 
     def cancel(I, a, kw):
         if not st["active"]:
@@ -244,7 +245,18 @@ def mk_timer(active):
         if not st["active"]:
             from twisted.internet import error
             raise PyRaise(SObj(error.AlreadyCalled, {"args": ()}))
-    t = stub("timer", cancel=cancel, reset=reset, active=lambda I, a, kw: st["active"])
+        st["calls"].append("reset")
+        if st["now"] is not None:
+            st["fires_at"] = norm_int(Z(st["now"]) + Z(a[0]))
+
+    def delay(I, a, kw):
+        if not st["active"]:
+            from twisted.internet import error
+            raise PyRaise(SObj(error.AlreadyCalled, {"args": ()}))
+        st["calls"].append("delay")
+        if st["fires_at"] is not None:
+            st["fires_at"] = norm_int(Z(st["fires_at"]) + Z(a[0]))
+    t = stub("timer", cancel=cancel, reset=reset, delay=delay, active=lambda I, a, kw: st["active"])
     t.state = st
     return t
 
@@ -378,7 +390,7 @@ class BucketWriterWrite(_BW):
 
     def inputs(self):
         return {"file0": FileK(gen_any), "max_size": IntK(0), "offset": IntK(0), "data": BytesArrK(),
-                "s1": IntK(0), "e1": IntK(0), "s2": IntK(0), "e2": IntK(0), "nranges": ChoiceK([0, 1, 2])}
+                "s1": IntK(0), "e1": IntK(0), "s2": IntK(0), "e2": IntK(0), "nranges": ChoiceK([0, 1, 2]), "now": IntK(0), "fires0": IntK(0)}
 
     def all_cases(self):
         return [{"nranges": k} for k in (0, 1, 2)]
@@ -407,7 +419,8 @@ class BucketWriterWrite(_BW):
         rm = SObj(collections_extended.RangeMap, {"_r": [(s, e, True) for (s, e) in self.ranges(a)]})
         sf = SObj(self.module().ShareFile, {"home": PathTok("incoming"), "_data_offset": 12, "_lease_offset": norm_int(12 + Z(a["max_size"])),
                                             "_max_size": a["max_size"]})
-        bw = SObj(self.module().BucketWriter, {"ss": mk_ss(), "closed": False, "throw_out_all_data": False, "_timeout": mk_timer(True),
+        self._timer = mk_timer(True, now=a["now"], fires_at=a["fires0"])
+        bw = SObj(self.module().BucketWriter, {"ss": mk_ss(), "closed": False, "throw_out_all_data": False, "_timeout": self._timer,
                                                "_clock": mk_clock(), "_sharefile": sf, "_already_written": rm, "_max_size": a["max_size"]})
         try:
             out = Outcome("return", I.call_value(self.target(I), [bw, a["offset"], a["data"]], {}))
@@ -442,7 +455,8 @@ class BucketWriterWrite(_BW):
                 ("written-range-holds-data", forall_range(0, ln, lambda k: z3.Select(c1, 12 + off + k) == z3.Select(d, k))),
                 ("bytes-outside-range-unchanged", forall_range(0, n, lambda k: z3.Implies(z3.Or(k < 12 + off, k >= 12 + off + ln), z3.Select(c1, k) == z3.Select(c, k)))),
                 ("range-map-is-union", forall_range(-1, mx + 1, lambda j: inr(j) == z3.Or(written(j), z3.And(j >= off, j < off + ln)))),
-                ("finished-iff-fully-covered", r == (covered == mx))]
+                ("finished-iff-fully-covered", r == (covered == mx)),
+                ("the-inactivity-abort-is-due-30-minutes-after-this-write", Z(self._timer.state["fires_at"]) == Z(a["now"]) + 30 * 60)]
 
     def canary(self, I, a, out):
         r = out.value
